@@ -504,6 +504,7 @@ class SymCtx:
         self.timeout_ms = timeout_ms
         self.nonlinear = False
         self.known = []       # (Bool atom, BoolVal) decided on this path
+        self.soft = []        # counterexamples of soft checks
         self.prefix = list(prefix)
         self.decisions = []
         self.forks = []
@@ -697,7 +698,9 @@ class SymCtx:
                     return m
         return attempt([])
 
-    def check(self, cond, label):
+    def check(self, cond, label, soft=False):
+        """soft=True: a counterexample is recorded and the path goes on (used for postconditions with a recorded
+        known finding, so that they cannot hide the checks that follow them)."""
         self.stats.obligations += 1
         self.labels.append(label)
         if cond is True or (isinstance(cond, numpy.bool_) and bool(cond)):
@@ -718,7 +721,11 @@ class SymCtx:
                 self._check()
                 m = self.solver.model()
                 self.solver.pop()
-            raise Counterexample(label, self.eval_inputs(m))
+            ce = Counterexample(label, self.eval_inputs(m))
+            if soft:
+                self.soft.append(ce)
+                return
+            raise ce
 
     def witness(self):
         m = self.nice_model()
@@ -751,6 +758,7 @@ class ConCtx:
         self.labels = []
         self.notes = {}
         self.stats = Stats()
+        self.soft = []
 
     def real(self, name, nan=False, hint=None, flag=None):
         if flag is not None:                 # shared flag
@@ -776,9 +784,12 @@ class ConCtx:
     def decide(self, e):
         return bool(e)
 
-    def check(self, cond, label):
+    def check(self, cond, label, soft=False):
         self.labels.append(label)
         if not bool(cond):
+            if soft:
+                self.soft.append(label)
+                return
             raise ConcreteViolation(label)
 
 
